@@ -423,6 +423,29 @@ fn spaces(tier: Tier) -> (Vec<Case>, Vec<Value>) {
     (cases, notes)
 }
 
+/// the compiler's error text without quoted names, as a key fragment
+fn slug(what: &str) -> String {
+    let msg = what.split("Error(\"").nth(1).or(what.split("Panic(\"").nth(1)).unwrap_or(what);
+    let msg = msg.split("\")").next().unwrap_or(msg);
+    let mut out = String::new();
+    let mut quoted = false;
+    for ch in msg.chars() {
+        if ch == '\'' {
+            quoted = !quoted;
+            continue;
+        }
+        if quoted {
+            continue;
+        }
+        if ch.is_ascii_alphanumeric() {
+            out.push(ch.to_ascii_lowercase());
+        } else if !out.ends_with('-') && !out.is_empty() {
+            out.push('-');
+        }
+    }
+    out.trim_matches('-').chars().take(60).collect()
+}
+
 fn all_configs() -> Vec<Opts> {
     (0..16u32)
         .map(|b| Opts {
@@ -641,6 +664,29 @@ enum Stored {
     Simple,
     /// (base glyph name, 2x2 as xx yx xy yy)
     Composite(Vec<(String, [i64; 4])>),
+}
+
+impl Stored {
+    fn short(&self) -> String {
+        match self {
+            Stored::Empty => "empty".into(),
+            Stored::Simple => "simple".into(),
+            Stored::Composite(v) => {
+                let parts: Vec<String> = v
+                    .iter()
+                    .map(|(n, m)| {
+                        let f = |x: i64| x as f64 / 16384.0;
+                        if *m == [16384, 0, 0, 16384] {
+                            n.clone()
+                        } else {
+                            format!("{n}[{} {} {} {}]", f(m[0]), f(m[1]), f(m[2]), f(m[3]))
+                        }
+                    })
+                    .collect();
+                format!("composite({})", parts.join(", "))
+            }
+        }
+    }
 }
 
 struct FontGlyph {
@@ -904,6 +950,18 @@ fn contours_json(r: &[Vec<P>]) -> Value {
     json!(r.iter().map(|c| c.iter().map(|p| json!([p.0, p.1, p.2])).collect::<Vec<_>>()).collect::<Vec<_>>())
 }
 
+/// One compile on a thread of its own: std's per-thread hash keys are drawn afresh from the (shimmed)
+/// getrandom, so the result is a function of (source, options, VERIF_HASH_SEED) and does not depend on
+/// what the worker thread compiled before. (fontc's glyph sources are HashMaps; C12 found a build whose
+/// success depends on their iteration order.)
+fn compile_fresh(path: &std::path::Path, o: &Opts) -> Result<Vec<u8>, fcx::Failure> {
+    std::thread::scope(|s| {
+        s.spawn(|| fcx::compile(path, o, None))
+            .join()
+            .unwrap_or_else(|_| Err(fcx::Failure::Panic("compile thread died".into())))
+    })
+}
+
 /// Compile `d` under every configuration of `cfgs` (index 0 must be the reference) and judge.
 /// `skrifa_cfgs`: configurations whose fonts are also run through the skrifa cross-check.
 fn evaluate(d: &Design, cfgs: &[Opts], skrifa_cfgs: &[usize]) -> EvalOut {
@@ -918,7 +976,7 @@ fn evaluate(d: &Design, cfgs: &[Opts], skrifa_cfgs: &[usize]) -> EvalOut {
             return out;
         }
     };
-    let fonts: Vec<Result<Vec<u8>, fcx::Failure>> = cfgs.iter().map(|o| fcx::compile(&path, o, None)).collect();
+    let fonts: Vec<Result<Vec<u8>, fcx::Failure>> = cfgs.iter().map(|o| compile_fresh(&path, o)).collect();
     st.compiles = cfgs.len() as u64;
     drop(sc);
 
@@ -1023,6 +1081,7 @@ fn evaluate(d: &Design, cfgs: &[Opts], skrifa_cfgs: &[usize]) -> EvalOut {
     st.cases_forced_decomposition = forced as u64;
 
     // ---- every configuration: against the source and against the reference
+    let mut src0_ok: BTreeMap<(String, usize), bool> = BTreeMap::new();
     let mut any_form_diff = false;
     let mut forms: Vec<Value> = vec![];
     for (ci, f) in fonts.iter().enumerate() {
@@ -1091,26 +1150,12 @@ fn evaluate(d: &Design, cfgs: &[Opts], skrifa_cfgs: &[usize]) -> EvalOut {
                 };
                 // (1) against the source
                 st.source_comparisons += 1;
-                let mo = match_contours(&rx.canon, &t.contours);
-                if mo.ok {
-                    bump_max(&mut st.max_source_diff_by_depth, &dkey, mo.max_diff);
-                } else {
-                    // same shape, other direction?
-                    let flipped: Vec<CC> =
-                        rx.canon.iter().map(|c| CC { pts: reversed(&c.pts), err: c.err }).collect();
-                    let undirected = t.contours.len() == rx.canon.len() && {
-                        // accept either direction per contour
-                        let both: Vec<CC> = rx.canon.clone();
-                        match_either(&both, &flipped, &t.contours)
-                    };
-                    let class = if undirected { "source-direction-differs" } else { "source-differs" };
-                    out.viol.push(mk(
-                        class,
-                        format!(
-                            "{} at master {m} under {cname} differs from the source's own f64 resolution: {}",
-                            g.name, mo.why
-                        ),
-                    ));
+                let src = compare(&rx.canon, &t.contours);
+                if let Cmp::Same(dmax) = &src {
+                    bump_max(&mut st.max_source_diff_by_depth, &dkey, *dmax);
+                }
+                if ci == 0 {
+                    src0_ok.insert((g.name.clone(), m), matches!(src, Cmp::Same(_)));
                 }
                 let want_adv = dgen::ot_round(g.layers[&m].advance);
                 if (rx.adv_metrics - want_adv).abs() > 1e-6 {
@@ -1122,7 +1167,7 @@ fn evaluate(d: &Design, cfgs: &[Opts], skrifa_cfgs: &[usize]) -> EvalOut {
                 // counters on the way the configuration stores the glyph
                 if m == 0 {
                     st.contours_flip_left_to_rasteriser += rx.stored_flips as u64;
-                    form_row.push(json!({ "glyph": g.name, "stored": format!("{:?}", rx.stored) }));
+                    form_row.push(format!("{}: {}", g.name, rx.stored.short()));
                     if ci != 0 && rx.stored != r0.stored {
                         bump(&mut st.stored_form_differs, &cname);
                         any_form_diff = true;
@@ -1137,6 +1182,7 @@ fn evaluate(d: &Design, cfgs: &[Opts], skrifa_cfgs: &[usize]) -> EvalOut {
                     }
                 }
                 if ci == 0 {
+                    report_source(&src, &mut out.viol, &mk, &g.name, m, &cname);
                     continue;
                 }
                 // (2) against the empty configuration
@@ -1144,27 +1190,37 @@ fn evaluate(d: &Design, cfgs: &[Opts], skrifa_cfgs: &[usize]) -> EvalOut {
                 if rx.iup || r0.iup {
                     st.pairs_with_iup_allowance += 1;
                 }
-                let mo = match_contours(&rx.canon, &r0.canon);
-                if mo.ok {
-                    bump_max(&mut st.max_pair_diff_by_depth, &dkey, mo.max_diff);
-                    if mo.max_diff > 1e-9 {
-                        st.pairs_with_nonzero_diff += 1;
+                let pair = compare(&rx.canon, &r0.canon);
+                match &pair {
+                    Cmp::Same(dmax) => {
+                        bump_max(&mut st.max_pair_diff_by_depth, &dkey, *dmax);
+                        if *dmax > 1e-9 {
+                            st.pairs_with_nonzero_diff += 1;
+                        }
+                        if *dmax > t.depth as f64 + 1e-6 {
+                            st.pairs_beyond_depth_units += 1;
+                        }
                     }
-                    if mo.max_diff > t.depth as f64 + 1e-6 {
-                        st.pairs_beyond_depth_units += 1;
+                    other => {
+                        let (class, why) = match other {
+                            Cmp::Dup(w) => ("duplicate-contour-dropped", w),
+                            Cmp::Dir(w) => ("direction-differs", w),
+                            Cmp::Shape(w) => ("shape-differs", w),
+                            Cmp::Same(_) => unreachable!(),
+                        };
+                        out.viol.push(mk(
+                            class,
+                            format!(
+                                "{} at master {m}: configuration {cname} and the empty configuration resolve to different outlines: {why}",
+                                g.name
+                            ),
+                        ));
                     }
-                } else {
-                    let flipped: Vec<CC> =
-                        rx.canon.iter().map(|c| CC { pts: reversed(&c.pts), err: c.err }).collect();
-                    let undirected = rx.canon.len() == r0.canon.len() && match_either(&rx.canon, &flipped, &r0.canon);
-                    let class = if undirected { "direction-differs" } else { "shape-differs" };
-                    out.viol.push(mk(
-                        class,
-                        format!(
-                            "{} at master {m}: configuration {cname} and the empty configuration resolve to different outlines: {}",
-                            g.name, mo.why
-                        ),
-                    ));
+                }
+                // a source mismatch of X is reported when it is not the reference's own mismatch again
+                // and not already explained by the pair comparison
+                if matches!(pair, Cmp::Same(_)) && src0_ok.get(&(g.name.clone(), m)) == Some(&true) {
+                    report_source(&src, &mut out.viol, &mk, &g.name, m, &cname);
                 }
                 if (rx.adv_metrics - r0.adv_metrics).abs() > 1e-6 {
                     out.viol.push(mk(
@@ -1209,6 +1265,68 @@ fn evaluate(d: &Design, cfgs: &[Opts], skrifa_cfgs: &[usize]) -> EvalOut {
     out.nontrivial = any_form_diff;
     out.summary = json!({ "stored": forms });
     out
+}
+
+fn report_source(
+    src: &Cmp,
+    viol: &mut Vec<Viol>,
+    mk: &dyn Fn(&'static str, String) -> Viol,
+    glyph: &str,
+    m: usize,
+    cname: &str,
+) {
+    let (class, why) = match src {
+        Cmp::Same(_) => return,
+        Cmp::Dup(w) => ("source-duplicate-contour-dropped", w),
+        Cmp::Dir(w) => ("source-direction-differs", w),
+        Cmp::Shape(w) => ("source-differs", w),
+    };
+    viol.push(mk(
+        class,
+        format!("{glyph} at master {m} under {cname} differs from the source's own f64 resolution: {why}"),
+    ));
+}
+
+enum Cmp {
+    /// equal within the allowances; largest difference
+    Same(f64),
+    /// equal as sets, but one side has fewer copies of coincident contours
+    Dup(String),
+    /// equal when direction is ignored
+    Dir(String),
+    Shape(String),
+}
+
+/// Remove contours that coincide exactly with an earlier one.
+fn dedup(a: &[CC]) -> Vec<CC> {
+    let mut out: Vec<CC> = vec![];
+    for c in a {
+        if !out.iter().any(|o| cyclic_diff(&o.pts, &c.pts).is_some_and(|d| d <= 1e-9)) {
+            out.push(c.clone());
+        }
+    }
+    out
+}
+
+fn compare(a: &[CC], b: &[CC]) -> Cmp {
+    let mo = match_contours(a, b);
+    if mo.ok {
+        return Cmp::Same(mo.max_diff);
+    }
+    if a.len() != b.len() {
+        let (da, db) = (dedup(a), dedup(b));
+        if (da.len() < a.len() || db.len() < b.len()) && match_contours(&da, &db).ok {
+            return Cmp::Dup(format!(
+                "{} contours vs {}; equal once coincident copies of a contour are collapsed ({} distinct)",
+                a.len(),
+                b.len(),
+                da.len()
+            ));
+        }
+        return Cmp::Shape(mo.why);
+    }
+    let flipped: Vec<CC> = a.iter().map(|c| CC { pts: reversed(&c.pts), err: c.err }).collect();
+    if match_either(a, &flipped, b) { Cmp::Dir(mo.why) } else { Cmp::Shape(mo.why) }
 }
 
 /// Is there a perfect matching when every contour of the left side may be taken in either direction?
@@ -1288,6 +1406,8 @@ fn replay(path: &std::path::Path) -> ! {
 
 fn main() {
     let args = vcore::parse_args();
+    // fixed hash keys: a verdict is a function of (case, seed), see `compile_fresh`
+    vcore::ensure_shim(args.seed);
     std::panic::set_hook(Box::new(|info| {
         if info.location().is_some_and(|l| l.file().ends_with("c12.rs")) {
             eprintln!("harness panic: {info}");
@@ -1331,7 +1451,7 @@ fn main() {
                     ("advance-differs" | "phantom-advance-differs" | "source-advance-differs", _) => {
                         format!("{}:{cname}", x.class)
                     }
-                    ("build-fails", _) => format!("build-fails:{cname}"),
+                    ("build-fails", _) => format!("build-fails:{}:{cname}", slug(&x.what)),
                     (_, Some(gi)) => {
                         format!("{}:{cname}:{}:{}", x.class, case.transform_label(gi), case.kind_label(gi))
                     }
